@@ -355,6 +355,36 @@ def sem_task(arg):
             "shape": "".join(h["a"][0] if h["a"] != "Callback" else "K" for h in hist)}
 
 
+# Which accounting of handed-over slots the JobSem mechanism model uses (constant FixHandover of JobSem.tla):
+#   "asis"  = builder.py as found (recursive mode violates Bounded/NoDuplication: finding
+#             jobsem-recursive:implicit-slot-accounting-ignores-handover-in-transit)
+#   "fixed" = mutants/fix_c06_jobsem_handover.diff (a slot stays counted in __acquired while it is handed over)
+# The check chooses; the other mechanism is kept as a weakening whose counterexample stays a replayed test.
+# VF_C06_JOBSEM overrides the default (used to verify the repair before it is in /repo).
+JOBSEM_MECHANISM_DEFAULT = "fixed"
+_CFGDIR = []
+
+
+def jobsem_fixed():
+    return os.environ.get("VF_C06_JOBSEM", JOBSEM_MECHANISM_DEFAULT) == "fixed"
+
+
+def semcfg(name, fixed):
+    """absolute path of a copy of specs/<name> with FixHandover forced to the chosen mechanism"""
+    import re
+    if not _CFGDIR:
+        _CFGDIR.append(common.scratch("vf-c06-cfg-"))
+    with open(os.path.join(tlc.SPECS, name)) as f:
+        txt = f.read()
+    txt, n = re.subn(r"FixHandover = \w+", "FixHandover = " + ("TRUE" if fixed else "FALSE"), txt)
+    if n != 1:
+        raise RuntimeError("no FixHandover constant in " + name)
+    path = os.path.join(_CFGDIR[0], ("fixed_" if fixed else "asis_") + name)
+    with open(path, "w") as f:
+        f.write(txt)
+    return path
+
+
 def cfg_constants(cfgfile):
     """constants of a JobSem cfg file (so that the replay uses exactly what TLC used)"""
     import re
@@ -669,6 +699,11 @@ def sched_sig(what, failed):
     return "sched:%s%s" % (what, (":fail-" + kinds) if kinds else "")
 
 
+def kg_incomplete_name(missing):
+    """keep-going left work undone: builds/packages only, or even checkouts"""
+    return "keep-going-incomplete" + ("-incl-checkouts" if any(m.startswith("c.") for m in missing) else "")
+
+
 def tdeps(steps, s, memo=None):
     out = set()
     todo = list(steps[s])
@@ -722,7 +757,7 @@ def run_scenario(arg):
            "trace": None, "maxpar": 0, "released": [], "rc": None}
     def v(what, **detail):
         detail.update(oracle="driver/scripts", dag=dag["name"], jobs=jobs, keep_going=kg, inject_fail=sorted(failset),
-                      released=list(run.released))
+                      released=list(run.released), dagdef=dag, dag_index=cfg["dag"])
         viol.append((sched_sig(what, [s for s, vd in run.released if vd != "ok"]), detail))
 
     work = common.scratch("vf-c06s-")
@@ -787,8 +822,9 @@ def run_scenario(arg):
                 v("exit-status", rc=rc, failed=sorted(failed), output=run.output()[-1500:])
             if not failed and okdone != set(steps):
                 v("successful-build-incomplete", missing=sorted(set(steps) - okdone))
-            if failed and kg and (set(steps) - tainted - failed) - okdone:
-                v("keep-going-incomplete", missing=sorted((set(steps) - tainted - failed) - okdone), failed=sorted(failed))
+            missing = (set(steps) - tainted - failed) - okdone
+            if failed and kg and missing:
+                v(kg_incomplete_name(missing), missing=sorted(missing), failed=sorted(failed))
         # --- schedule independence: dist trees against the sequential build ---
         if not viol:
             trees = run.dist_trees()
@@ -846,7 +882,8 @@ def explain_rejection(dagdef, tr, n):
                     return "exit-status"
                 if not failed:
                     return "successful-build-incomplete"
-                return "keep-going-incomplete"
+                missing = [x for x in st if st[x] not in ("ok", "failed") and not (tdeps(steps, x) & failed)]
+                return kg_incomplete_name(missing)
             continue
         s = label(e["k"], e["n"])
         if i == n:
@@ -894,7 +931,7 @@ def validate_sched_traces(results, rep, report):
             report(sched_sig(why, failed),
                    {"oracle": "TraceBobSched rejected the recorded trace", "trace": t, "rejected_event_index": n,
                     "rejected_event": t[n], "dag": r["dag"], "jobs": r["jobs"], "keep_going": r["kg"],
-                    "inject_fail": r["failset"]})
+                    "inject_fail": r["failset"], "dagdef": r["dagdef"], "dag_index": t[0]["dag"]})
     return rejected
 
 
@@ -1003,8 +1040,58 @@ def kill_registered_sessions():
             pass
 
 
+def replay(path, seed):
+    """bin/check C06 --replay evidence/replay/C06-n.json: re-executes the recorded case on the real code
+    (semaphore behaviour, or DAG/jobs/keep-going/failures/release order of a real build). Exit 1 = reproduced."""
+    with open(path) as f:
+        doc = json.load(f)
+    sig, d = doc["signature"], doc["detail"]
+    common.use_repo()
+    import bob.builder  # noqa: F401
+    found = []
+    if sig.startswith("jobsem"):
+        hist = [{"a": x[0], "t": x[1]} for x in d["behaviour"]]
+        r = SemReplay(hist, d["constants"]).run()
+        found = r.violations
+    elif sig.startswith("sched") and "dagdef" in d:
+        dag = d["dagdef"]
+        if "released" in d:
+            order = [(s, vd) for s, vd in d["released"]]
+        else:
+            order = [(label(e["k"], e["n"]), "ok" if e["e"] == "EndOk" else "fail") for e in d["trace"][1:]
+                     if e["e"] in ("EndOk", "EndFail")]
+        order += [(s, "fail") for s in d.get("inject_fail", []) if s not in [x for x, _ in order]]
+        beh = [{"e": "Config", "dag": d["dag_index"], "jobs": d["jobs"], "kg": d["keep_going"], "def": dag}]
+        for s, vd in order:
+            k, n = s.split(".", 1)
+            beh.append({"e": "EndOk" if vd == "ok" else "EndFail", "k": k, "n": n})
+        name, trees, runs, bad = reference_build((dag,))
+        if bad:
+            found = [bad]
+        else:
+            res = run_scenario((0, beh, seed, False, trees))
+            res["dagdef"] = dag
+            found = list(res["violations"])
+
+            class _Sink:
+                def add_tlc(self, *a, **k):
+                    pass
+            validate_sched_traces([res], _Sink(), lambda s, det: found.append((s, det)))
+            print("trace:", [(e["e"], e.get("k", "") + "." + e.get("n", "")) for e in res["trace"][1:]])
+    else:
+        print("cannot replay %s (model-level or old-format record)" % sig)
+        return 2
+    for s, det in found:
+        print("REPRODUCED signature: %s  (%s)" % (s, det.get("oracle")))
+    if not found:
+        print("not reproduced: " + sig)
+    return 1 if found else 0
+
+
 def main():
     a = common.args(PROP)
+    if a.replay:
+        return replay(a.replay, a.seed)
     rep = evidence.Report(PROP, a.tier, a.seed)
     quick = a.tier == "quick"
     rep.rule = ("traces = (1) TLC behaviours of JobSem (exhaustive at K=2,N=1 + simulation at K=4) replayed step by step into the "
@@ -1034,7 +1121,9 @@ def main():
     pool = mp.get_context("fork").Pool(min(W, 16))
     tw = max(1, min(4, W // 4))
     tpool = cf.ThreadPoolExecutor(max_workers=max(2, min(8, W // 2)))
-    T = {}
+    T, CFG = {}, {}
+    fixed = jobsem_fixed()
+    rep.extra["jobsem_mechanism"] = "fixed" if fixed else "asis"
 
     # development knobs (not used by bin/check): VF_C06_PART=1|2 runs one part only, VF_C06_NOTLC=1 skips the
     # exhaustive (A) runs (seeded changes of /repo cannot affect them)
@@ -1048,6 +1137,9 @@ def main():
             return
         kw.setdefault("workers", tw)
         kw.setdefault("timeout", 3000 if quick else 9000)
+        if module == "JobSem":
+            cfg = semcfg(cfg, kw.pop("mech", fixed))
+            CFG[name] = cfg
         T[name] = tpool.submit(tlc.run, module, cfg, **kw)
 
     nsim = 1500 if quick else 12000
@@ -1061,10 +1153,13 @@ def main():
         go("sem_sim3", "JobSem", "JobSem_gen_sim3.cfg", workers=1, simulate="num=%d" % nsim, depth=60, seed=a.seed + 2, deadlock=False)
     go("sem_ex", "JobSem", "JobSem.cfg" if quick else "JobSem_thorough.cfg", coverage=True)
     go("sem_rec", "JobSem", "JobSem_rec.cfg")
-    if not quick:
-        # the intended fix of the recursive-mode accounting (FixHandover = TRUE) satisfies every invariant in the model
-        go("sem_rec_fixed", "JobSem", "JobSem_rec_fixed.cfg")
-        go("sem_fixed", "JobSem", "JobSem_fixed.cfg")
+    if fixed:
+        # the old accounting as a weakening: must violate, its counterexample is replayed into the real class
+        go("sem_rec_old", "JobSem", "JobSem_rec.cfg", mech=False)
+    elif not quick:
+        # the repaired accounting (FixHandover = TRUE) satisfies every invariant in the model
+        go("sem_rec_fixed", "JobSem", "JobSem_rec.cfg", mech=True)
+        go("sem_fixed", "JobSem", "JobSem.cfg", mech=True)
     go("sem_live", "JobSem", "JobSem_live.cfg" if quick else "JobSem_live_thorough.cfg")
     go("sem_live_term", "JobSem", "JobSem_live_term.cfg" if quick else "JobSem_live_term_thorough.cfg")
     for r in ("ReachHandover", "ReachTwoWoken", "ReachChildStarves"):
@@ -1096,7 +1191,7 @@ def main():
             if name not in T:
                 continue
             r = T[name].result()
-            consts = cfg_constants(cfgf)
+            consts = cfg_constants(CFG[name])
             seen = set()
             for h in r.printed:
                 key = json.dumps([(x["a"], x["t"]) for x in h])
@@ -1108,10 +1203,20 @@ def main():
                 rep.add_tlc(r, "JobSem_gen exhaustive enumeration K=2 N=1")
         rec = T["sem_rec"].result() if "sem_rec" in T else None
         if rec is not None:
-            rep.add_tlc(rec, "JobSem_rec (Recursive=TRUE) exhaustive")
+            rep.add_tlc(rec, "JobSem_rec (Recursive=TRUE, mechanism %s) exhaustive" % ("fixed" if fixed else "asis"))
             rep.extra["jobsem_recursive_model_violates"] = rec.violated
             if rec.violated:
-                sem_tasks.append((cex_behaviour(rec), cfg_constants("JobSem_rec.cfg")))
+                sem_tasks.append((cex_behaviour(rec), cfg_constants(CFG["sem_rec"])))
+                if fixed:
+                    rep.violation("model:JobSem-recursive:" + rec.violated, {"cex": rec.cex})
+        if "sem_rec_old" in T:
+            old = T["sem_rec_old"].result()
+            rep.add_tlc(old, "JobSem_rec weakening: old hand-over accounting")
+            if not old.violated:
+                raise tlc.TlcError("vacuity: the old hand-over accounting does not violate any invariant")
+            rep.extra["jobsem_old_accounting_violates"] = old.violated
+            sem_tasks.append((cex_behaviour(old), cfg_constants(CFG["sem_rec_old"])))
+            rep.nontriv("jobsem:old-accounting-counterexample-replayed")
         sem_async = pool.map_async(sem_task, sem_tasks, chunksize=64)
 
         if ref_async is not None:
@@ -1144,7 +1249,7 @@ def main():
             if i < 2:
                 rep.sample({"jobsem_behaviour": [(x["a"], x["t"]) for x in sem_tasks[i][0]]})
         rep.extra["jobsem_distinct_action_shapes"] = len(shapes)
-        if rec is not None and rec.violated and not rec_confirmed:
+        if rec is not None and rec.violated and not rec_confirmed and not fixed:
             rep.model_drift("JobSem (Recursive) violates %s but the real class showed no P violation on the replayed behaviours" % rec.violated)
 
         # ---- (A) exhaustive results -----------------------------------------------------------
